@@ -1,7 +1,7 @@
 (* Wf/CallsObs.v — the observables of the C14 model compared with the
    implementation by harness/cmd/c14: a sorted set of (class, name bytes) per
    lint, and the derived interface per generated declaration. *)
-From AL Require Import Base.AList Base.Corr Wf.Calls Gen.GenPopular.
+From AL Require Import Base.AList Base.Corr Wf.Calls Wf.RequiredExpr Gen.GenPopular.
 
 Definition calls_bytes (s : string) : list N :=
   map (fun c => N.of_nat (nat_of_ascii c)) (list_ascii_of_string s).
@@ -52,7 +52,10 @@ Definition run_wf (c : bool * list (string * wdecl) * list (string * option bool
 Inductive derive_case :=
 | DAction (ins : list (string * adecl)) (outs : list string)
 | DWfFile (ins : list (string * wdecl)) (secs : list (string * option bool)) (outs : list string)
-| DWfAst (ins : list (string * wdecl)) (secs : list (string * option bool)) (outs : list string).
+| DWfAst (ins : list (string * wdecl)) (secs : list (string * option bool)) (outs : list string)
+(* the same with `required:` as written (Wf/RequiredExpr.v) *)
+| DWfFileR (ins : list (string * wdeclr)) (secs : list (string * yreq)) (outs : list string)
+| DWfAstR (ins : list (string * wdeclr)) (secs : list (string * yreq)) (outs : list string).
 
 Definition derive_tuple (kind : N) (id name : string) (required : bool) (ty : N) : tuple :=
   ([kind; if required then 1%N else 0%N; ty; N.of_nat (String.length id)] ++ calls_bytes id ++ calls_bytes name)%list.
@@ -75,4 +78,10 @@ Definition run_derive (c : derive_case) : list tuple :=
       end
   | DWfFile ins secs outs => wmeta_tuples (wf_meta false ins secs outs)
   | DWfAst ins secs outs => wmeta_tuples (wf_meta true ins secs outs)
+  | DWfFileR ins secs outs =>
+      match decode_inputs ins, decode_secrets secs with
+      | Some i, Some s => wmeta_tuples (wf_meta false i s outs)
+      | _, _ => [[99%N]]
+      end
+  | DWfAstR ins secs outs => wmeta_tuples (wf_meta true (ast_inputs ins) (ast_secrets secs) outs)
   end.
